@@ -1,7 +1,7 @@
 (* C13 -- region measurements and label-map utilities equal their per-label definitions. *)
 Require Import MV.Base.Prelude MV.Base.CInt MV.Base.Index MV.Base.BorderSpec MV.Base.Renumber.
 Require Import MV.Gen.Scalar_gen MV.Model.Filter MV.Model.Labeled MV.Proof.ConvProof MV.Proof.LabeledProof MV.Proof.SameLabelingProof MV.Proof.BboxProof MV.Proof.BboxFastProof.
-Require Import MV.Proof.ComProof.
+Require Import MV.Proof.ComProof MV.Proof.BboxLabeledProof.
 
 (* labeled_foldl: result[k] is the fold of the operation over exactly the pixels carrying label k (scan order),
    for ANY operation and identity element -- nothing from other labels leaks in *)
@@ -83,3 +83,10 @@ Theorem C13_center_of_mass_sums : forall f lab l, pos_shape (shape f) ->
   forall j, 0 <= j < Zlen (shape f) ->
     nthZ 0 (snd (com_sums f lab l)) j = sumZ (map (fun i => aget f (unravel (shape f) i) * nthZ 0 (unravel (shape f) i) j) idx).
 Proof. exact com_sums_over_pixels. Qed.
+
+(* labeled.bbox: the one-pass scan of _bbox.cpp (every pixel updates the extrema row of its label; rows still at their initial
+   value are zeroed afterwards) returns for every label 0..n the tight bounding box of exactly the pixels carrying that label,
+   zeros for a label without pixels -- any dimension, any label map *)
+Theorem C13_labeled_bbox_is_the_tight_box_per_label : forall f n, wf_arr f -> 0 <= n ->
+  bbox_labeled f n = bbox_labeled_spec f n.
+Proof. exact bbox_labeled_is_spec. Qed.
